@@ -1310,3 +1310,13 @@ package ro
 //@   invariant 0 <= i && (count < 0 || i <= count)
 //@   exit count <= 0 || i == count
 //@   iteration emits call.Float64(), destination.NextWithContext(ctx, res(call.Float64))
+
+//@ operator RangeWithStep
+//@   note every value delivered is the cursor of that iteration (start, start ± step, ...), then completion; how many iterations floating-point arithmetic gives is not reasoned about
+//@   props C04 C09 C08 C12
+//@   otherwise start == end : returns Empty()
+//@   on subscribe(ctx, destination) : emits loop.L0, Complete(ctx)
+
+//@ loop RangeWithStep$1#0
+//@   noexit
+//@   iteration emits destination.NextWithContext(ctx, cursor)
